@@ -172,7 +172,7 @@ func (fe *frontEnd) retExprSexpr(fn string) (string, bool) {
 	return "", false
 }
 
-func exprTreeCheck(r *hlib.Run, tc *toolchain) {
+func exprTreeCheck(r *rec, tc *toolchain) {
 	n := 60
 	if r.Thorough {
 		n = 1500
@@ -182,6 +182,8 @@ func exprTreeCheck(r *hlib.Run, tc *toolchain) {
 	var kept []pr
 	var src strings.Builder
 	src.WriteString(head)
+	cands := make([]pr, n)
+	srcs := make([]string, n)
 	for k := 0; k < n; k++ {
 		g := &etGen{r: r.Rand.Fork()}
 		g.t1, g.t2 = g.r.Intn(4), g.r.Intn(4)
@@ -195,15 +197,20 @@ func exprTreeCheck(r *hlib.Run, tc *toolchain) {
 			out, e = wtys[wi].src(), g.num(wi, 1+g.r.Intn(3))
 		}
 		fsrc := fmt.Sprintf("pri func s.%s(%s) %s {\n    return %s\n}\n", name, params, out, e)
-		if _, err := parseAndCheck("et.wuffs", []byte(head+fsrc)); err != nil {
+		cands[k] = pr{name, fsrc}
+		srcs[k] = fsrc
+	}
+	acc, why := acceptedAll("et.wuffs", head, srcs)
+	for k := range cands {
+		if !acc[k] {
 			r.Count("exprtree:probe-rejected-by-checker")
 			if os.Getenv("C04_DEBUG") != "" {
-				fmt.Fprintf(os.Stderr, "exprtree rejected: %v\n%s\n", err, fsrc)
+				fmt.Fprintf(os.Stderr, "exprtree rejected: %v\n%s\n", why[k], srcs[k])
 			}
 			continue
 		}
-		kept = append(kept, pr{name, fsrc})
-		src.WriteString(fsrc + "\n")
+		kept = append(kept, cands[k])
+		src.WriteString(srcs[k] + "\n")
 	}
 	fe, err := parseAndCheck("et.wuffs", []byte(src.String()))
 	if err != nil {
